@@ -549,6 +549,35 @@ class SymStr:
                     d = digits(v, 64, 4, "u8")
                     out.extend([0xF0 + d[0], 0x80 + d[1], 0x80 + d[2], 0x80 + d[3]])
             return SymBytes(out)
+        if enc in ("utf16", "utf16le", "utf16be", "utf32", "utf32le", "utf32be"):
+            import sys as _sys
+            wide = enc.startswith("utf32")
+            order = enc[-2:] if enc[-2:] in ("le", "be") else ("le" if _sys.byteorder == "little" else "be")
+
+            def unit(u, nbytes):
+                if isinstance(u, int):
+                    ds = list(u.to_bytes(nbytes, "big"))
+                else:
+                    ds = digits(u, 256, nbytes, "u16")
+                return ds if order == "be" else ds[::-1]
+
+            if enc in ("utf16", "utf32"):
+                out.extend(unit(0xFEFF, 4 if wide else 2))      # the byte-order mark is written once, at the start
+            for i, ch in enumerate(self.items):
+                v = ord(ch) if isinstance(ch, str) else ch.v
+                if not isinstance(v, int) and p.fork(z3.And(v >= 0xD800, v <= 0xDFFF)) or isinstance(v, int) and 0xD800 <= v <= 0xDFFF:
+                    raise UnicodeEncodeError(encoding, "?" * len(self.items), i, i + 1, "surrogates not allowed")
+                if wide:
+                    out.extend(unit(v, 4))
+                elif isinstance(v, int):
+                    out.extend(ch.encode("utf-16-" + order))
+                elif p.fork(v < 0x10000):
+                    out.extend(unit(v, 2))
+                else:
+                    hi, lo = digits(v - 0x10000, 1024, 2, "sg")
+                    out.extend(unit(0xD800 + hi, 2))
+                    out.extend(unit(0xDC00 + lo, 2))
+            return SymBytes(out)
         raise ProxyLeak("encode(%r) of symbolic string" % encoding)
 
     def __repr__(self):
